@@ -290,7 +290,13 @@ LayoutScenarios ==
 LayoutSpace == {s \in LayoutScenarios : /\ s.place \in Places(s.op) /\ s.wm \in WithM(s.op) /\ s.chk \in Chk(s.op)
                                         /\ (IsTagClass(s.h) <=> s.place \in {"tag", "tgttag"})}
 
-Scenarios == ArtScenarios \cup TarScenarios \cup LinkScenarios \cup ImportScenarios \cup LayoutSpace
+\* (no union constant: TLC evaluates constants eagerly and normalising 128k records costs a minute; modules choose by
+\* entry point instead)
+InSpace(x, eps) == \/ "art" \in eps /\ x \in ArtScenarios
+                   \/ "tar" \in eps /\ x \in TarScenarios
+                   \/ "lnk" \in eps /\ x \in LinkScenarios
+                   \/ "imp" \in eps /\ x \in ImportScenarios
+                   \/ "lay" \in eps /\ x \in LayoutSpace
 
 \* ------------------------------------------------------------------ what the model says a scenario touches
 RECURSIVE RunEntries(_, _, _, _)
